@@ -42,6 +42,7 @@ func main() {
 			fmt.Fprintln(w, c.Line())
 		}
 	case "run":
+		capMemory()
 		sc := bufio.NewScanner(os.Stdin)
 		sc.Buffer(make([]byte, 1<<20), 1<<30)
 		w := bufio.NewWriterSize(os.Stdout, 1<<16)
